@@ -300,7 +300,7 @@ pub const R_ISA: u8 = 0;
 pub const R_MMU: u8 = 1;
 pub const R_CMO: u8 = 2;
 pub const R_HART: u8 = 3;
-pub const ISA_STRINGS: [&str; 8] = ["rv64i", "rv64im", "", "r\u{e9}", "rv64imafdc_zicbom_zicboz_sstc", "rv64imafdch_zx00_zx01_zx02_zx03_zx04_zx05_zx06_zx07_zx08_zx09_zx10_zx11_zx12_zx13_zx14_zx15_zx16_zx17_zx18_zx19_zx20_zx21_zx22_zx23_zx24_zx25_zx26_zx27_zx28_zx29_zx30_zx31_zx32_zx33_zx34_zx35_zx36_zx37_zx38_zx39_zx40_zx41_zx42_zx43_zx44_zx45_zx46_zx47_zx48_zx49_zx50_zx51_zx52_zx53_zx54_zx55_zx56_zx57_zx58_zx59", "rv\0", "rv6"];
+pub const ISA_STRINGS: [&str; 8] = ["rv64i", "rv64im", "", "r\u{e9}", "rv6\0", "rv64imafdch_zx00_zx01_zx02_zx03_zx04_zx05_zx06_zx07_zx08_zx09_zx10_zx11_zx12_zx13_zx14_zx15_zx16_zx17_zx18_zx19_zx20_zx21_zx22_zx23_zx24_zx25_zx26_zx27_zx28_zx29_zx30_zx31_zx32_zx33_zx34_zx35_zx36_zx37_zx38_zx39_zx40_zx41_zx42_zx43_zx44_zx45_zx46_zx47_zx48_zx49_zx50_zx51_zx52_zx53_zx54_zx55_zx56_zx57_zx58_zx59", "rv\0", "rv64imafdc_zicbom_zicboz_sstc"];
 pub fn hart_shape(isa_sel: u16, ncmo: u16, cmo_sel: u16) -> u16 {
     isa_sel | (ncmo << 3) | (cmo_sel << 5)
 }
